@@ -9,8 +9,8 @@ package rtmp
 
 import "net"
 
-// VerifHandleTcpConnect is exactly what the accept loop starts in a goroutine
+// VerifC04HandleTcpConnect is exactly what the accept loop starts in a goroutine
 // for every new connection.
-func (server *Server) VerifHandleTcpConnect(conn net.Conn) {
+func (server *Server) VerifC04HandleTcpConnect(conn net.Conn) {
 	server.handleTcpConnect(conn)
 }
